@@ -103,6 +103,19 @@ def run(ctx, F, rule="E-VNM"):
                 ctx.ob(rule + ".displace", "%s.displace:%s" % (rule, nice), ok,
                        "%s (%s): a name slot is displaced (mem::replace) but the old name is never removed from `index`"
                        % (nice, where))
+    # ---- len / is_empty / named_count read the structure they are documented to describe ------------------------
+    import edm
+    ADT = "oxidd_core::util::var_name_map::VarNameMap"
+    want = {"len": {"names"}, "is_empty": {"names"}, "named_count": {"index"}}
+    for fid, m in sorted(fns.items()):
+        nm = fid.rsplit("::", 1)[1]
+        if nm in want and "VarNameMap>" in F.nice(fid):
+            fs = edm.fields_of(m, ADT)
+            ctx.ob(rule + ".siblings", "%s.siblings:%s" % (rule, nm), fs == want[nm],
+                   "VarNameMap::%s (%s) reads %s; `len`/`is_empty` describe the number of variables (the `names` vector, "
+                   "unnamed variables included) and `named_count` the number of names (`index`). The managers use "
+                   "is_empty() to decide whether a name map may replace theirs wholesale"
+                   % (nm, F.where(fid), sorted(fs)))
     ctx.floor(rule + ".free", "Unowned::into_box sites", n_free, 7)
     ctx.floor(rule + ".push", "pushes of fresh names", n_push, 2)
     ctx.floor(rule + ".displace", "displaced name slots", n_disp, 2)
